@@ -101,6 +101,11 @@ class SignEval:
                         if not isinstance(c, Bool):
                             raise Undecided("when() on a non-boolean")
                         return self.ev(th.args[0]) if c.v else self.ev(e.args[0])
+            if isinstance(e.func, ast.Attribute) and e.func.attr == "sign" and not e.args:
+                v = self.ev(e.func.value)
+                if isinstance(v, Num):
+                    z = v.key() == ("zero",)
+                    return Num(0 if z else v.mult, ("const", 0) if z else ("const", 1))
             if isinstance(e.func, ast.Attribute) and e.func.attr in ("cast",):
                 return self.ev(e.func.value)
             raise Undecided(f"call `{norm(e)[:50]}`")
@@ -127,6 +132,8 @@ class SignEval:
                 raise Undecided("bool op")
             if isinstance(l, Num) and isinstance(r, Num):
                 if isinstance(e.op, ast.Mult):
+                    if l.key() == ("zero",) or r.key() == ("zero",):
+                        return Num(0, ("const", 0))
                     if _is_one(l):
                         return Num(l.mult * r.mult, r.mag)
                     if _is_one(r):
@@ -135,7 +142,7 @@ class SignEval:
                 if isinstance(e.op, ast.FloorDiv):
                     # model of Polars/Python `//`: floor.  same signs: floor(|x|/|y|); mixed: -ceil(|x|/|y|)
                     if r.key() == ("zero",):
-                        raise Undecided("division by zero case")
+                        return Num(1, ("null: division by a divisor the emulation made zero",))
                     if l.key() == ("zero",):
                         return Num(0, ("const", 0))
                     if l.mult * r.mult > 0:
@@ -144,7 +151,7 @@ class SignEval:
                 if isinstance(e.op, ast.Mod):
                     # model of Polars/Python `%`: result has the sign of the divisor
                     if r.key() == ("zero",):
-                        raise Undecided("modulo by zero case")
+                        return Num(1, ("null: modulo by a divisor the emulation made zero",))
                     if l.key() == ("zero",):
                         return Num(0, ("const", 0))
                     if l.mult > 0 and r.mult > 0:
